@@ -42,7 +42,7 @@ MIN = {'quick': {'distinct': 250,
                                  ('encoding latin-1', 15),
                                  ('encoding utf-16', 15), ('gzip source', 10),
                                  ('directory source', 5)])},
-       'thorough': {'distinct': 8000, 'hooks': {'cli.transform': 20000}}}
+       'thorough': {'distinct': 5000, 'hooks': {'cli.transform': 15000}}}
 
 CARRY = {
     'export': {'sid', 'word', 'pos', 'morph', 'edge', 'labels', 'struct'},
